@@ -35,7 +35,7 @@ func (c *fnCtx) call(v *ast.CallExpr, pre *[]fnBind, want []string) ([]string, [
 						return one("(zlen "+paren(x)+")", tyInt)
 					}
 					if t.k == "map" {
-						return one("(go_map_len "+c.mapEqb(t, v)+" "+paren(x)+")", tyInt)
+						return one("("+c.mapOp(t, "len")+" "+c.mapEqb(t, v)+" "+paren(x)+")", tyInt)
 					}
 					if t.k == "view" {
 						return one("(vlen "+paren(x)+")", tyInt)
@@ -56,6 +56,27 @@ func (c *fnCtx) call(v *ast.CallExpr, pre *[]fnBind, want []string) ([]string, [
 					}
 				}
 				c.lostAt(v, "cap of %s (capacity is known for re-sliced parameters only)", src(v.Args[0]))
+			case "make":
+				if t := c.makeMapType(v, pre); t != nil {
+					return one("go_nmap_make", t)
+				}
+				if at, ok := v.Args[0].(*ast.ArrayType); ok && at.Len == nil && len(v.Args) >= 2 && len(v.Args) <= 3 {
+					// make([]T, n[, c]) as a value (handed to a function or returned)
+					t := c.goType(v.Args[0])
+					n, _ := c.expr(v.Args[1], pre)
+					cp := n
+					if len(v.Args) == 3 {
+						cp, _ = c.expr(v.Args[2], pre)
+					}
+					bindRaw(pre, "_", "go_make_check "+paren(n)+" "+paren(cp))
+					if n == "0" {
+						return one("[]", t)
+					}
+					if t.elem.k == "slice" {
+						c.lostAt(v, "make of a non-empty slice of slices")
+					}
+					return one("(repeat "+c.zeroOf(t.elem, v)+" (Z.to_nat "+paren(n)+"))", t)
+				}
 			case "min", "max":
 				if len(v.Args) >= 2 {
 					fn := "Z." + f.Name
@@ -100,6 +121,14 @@ func (c *fnCtx) call(v *ast.CallExpr, pre *[]fnBind, want []string) ([]string, [
 		}
 		if id, ok := f.X.(*ast.Ident); ok && id.Obj == nil {
 			switch id.Name + "." + f.Sel.Name {
+			case "maps.Clone":
+				// a new map with the same entries (nil for nil): the same value
+				if len(v.Args) == 1 {
+					x, xt := c.expr(v.Args[0], pre)
+					if xt.k == "map" && xt.nilable {
+						return one("(go_nmap_clone "+x+")", xt)
+					}
+				}
 			case "cmp.Compare", "strings.Compare":
 				if len(v.Args) == 2 {
 					x, xt := c.expr(v.Args[0], pre)
@@ -141,9 +170,32 @@ func (c *fnCtx) callValue(x *fnVar, v *ast.CallExpr, pre *[]fnBind) ([]string, [
 }
 
 func (c *fnCtx) callTranslated(cal *fnFunc, v *ast.CallExpr, pre *[]fnBind, want []string) ([]string, []*fnType) {
-	if len(v.Args) != len(cal.params) || v.Ellipsis.IsValid() {
+	args := callArgs(cal, v)
+	nfix := len(cal.params)
+	variadic := nfix > 0 && cal.params[nfix-1].variadic
+	if variadic && !v.Ellipsis.IsValid() {
+		nfix--
+		if len(args) < nfix {
+			c.lostAt(v, "call of %s (arity)", cal.name)
+		}
+	} else if len(args) != len(cal.params) || (v.Ellipsis.IsValid() && !variadic) {
 		c.lostAt(v, "call of %s (arity)", cal.name)
 	}
+	if cal.namedRecv {
+		// the receiver must have the map type the method is declared on
+		if x := c.plainVar(args[0]); x == nil || x.typ.k != "map" || x.typ.name != cal.recv {
+			c.lostAt(v, "call of %s on %s (not a variable of type %s)", cal.name, src(args[0]), cal.recv)
+		}
+	}
+	if len(c.loops) > 0 {
+		for _, e := range cal.extras {
+			if strings.HasPrefix(e.key, "ord:") {
+				c.lostAt(v, "call of %s, which ranges over a map, inside a loop (one iteration order per execution would be needed)", cal.name)
+			}
+		}
+	}
+	var snaps []string
+	var snapVars []*fnVar
 	s := cal.name
 	for _, f := range cal.fields {
 		x, ok := c.fields[f]
@@ -161,8 +213,42 @@ func (c *fnCtx) callTranslated(cal *fnFunc, v *ast.CallExpr, pre *[]fnBind, want
 		}
 	}
 	var mutArgs []*fnVar
+	_ = snapVars
 	for i, p := range cal.params {
-		a := v.Args[i]
+		if p.variadic && !v.Ellipsis.IsValid() {
+			// items ...T: the remaining arguments as a list
+			var xs []string
+			for _, a := range args[i:] {
+				y, yt := c.expr(a, pre)
+				if yt.k == "slice" || yt.k == "view" || yt.k == "map" {
+					c.lostAt(a, "variadic argument %s", src(a))
+				}
+				xs = append(xs, y)
+			}
+			s += " [" + strings.Join(xs, "; ") + "]"
+			continue
+		}
+		a := args[i]
+		if p.v != nil && p.v.typ.k == "map" {
+			if p.mutated {
+				x := c.plainVar(a)
+				if x == nil || x.typ.k != "map" {
+					c.lostAt(a, "map argument %s (must be a variable: the call changes it)", src(a))
+				}
+				if sn := c.rangedSnapshot(pre, x); sn != "" {
+					snaps, snapVars = append(snaps, sn), append(snapVars, x)
+				}
+				s += " " + x.name
+				mutArgs = append(mutArgs, x)
+			} else {
+				y, yt := c.expr(a, pre)
+				if yt.k != "map" {
+					c.lostAt(a, "map argument %s", src(a))
+				}
+				s += " " + paren(asNmapTo(p.v.typ, yt, y))
+			}
+			continue
+		}
 		if p.v == nil { // a logged callback: must be the same callback here
 			if l := c.logs[src(a)]; l == nil {
 				if sel, ok := a.(*ast.SelectorExpr); !ok || !c.isRecv(sel.X) || c.logs[sel.Sel.Name] == nil {
@@ -200,7 +286,17 @@ func (c *fnCtx) callTranslated(cal *fnFunc, v *ast.CallExpr, pre *[]fnBind, want
 		c.noAlias(a, yt)
 		s += " " + paren(y)
 	}
+	sub := c.calleeSubst(cal, v)
 	for _, e := range cal.extras {
+		if strings.HasPrefix(e.key, "eqb:") {
+			// the equality of the callee's key type, at the type it is called with
+			kt := substT(&fnType{k: "elem", name: strings.TrimPrefix(e.key, "eqb:")}, sub)
+			s += " " + c.mapEqb(&fnType{k: "map", key: kt}, v)
+			continue
+		}
+		if strings.HasPrefix(e.key, "ord:") && len(sub) > 0 {
+			c.lostAt(v, "call of %s, which ranges over a map, at other type arguments", cal.name)
+		}
 		x := c.extras[e.key]
 		if x == nil {
 			c.lostAt(v, "call of %s (%s)", cal.name, e.name)
@@ -214,11 +310,8 @@ func (c *fnCtx) callTranslated(cal *fnFunc, v *ast.CallExpr, pre *[]fnBind, want
 		s += " " + x.name
 	}
 	for _, z := range cal.zeroTypes {
-		zv := c.zeros[z]
-		if zv == nil {
-			c.lostAt(v, "call of %s (zero value of %s)", cal.name, z)
-		}
-		s += " " + zv.name
+		zt := substT(&fnType{k: "elem", name: z}, sub)
+		s += " " + paren(c.zeroOf(zt, v))
 	}
 	if cal.fuel {
 		s += " fuel"
@@ -270,6 +363,9 @@ func (c *fnCtx) callTranslated(cal *fnFunc, v *ast.CallExpr, pre *[]fnBind, want
 	for i, l := range cal.logs {
 		lv := c.logs[l]
 		*pre = append(*pre, fnBind{pat: lv.name, e: lv.name + " ++ " + logTmps[i], isLet: true, effect: true})
+	}
+	for _, sn := range snaps {
+		c.nogrowCheck(pre, sn)
 	}
 	return res, cal.results
 }
@@ -411,13 +507,21 @@ func (c *fnCtx) stmt(s ast.Stmt, k func() term) term {
 			c.copyStmt(call, &pre)
 			return wrap(pre, k())
 		}
+		if isBuiltin(call, "clear", 1) {
+			x := c.plainVar(call.Args[0])
+			if x == nil || x.typ.k != "map" {
+				c.lostAt(v, "clear of %s (must be a map variable or field)", src(call.Args[0]))
+			}
+			pre = append(pre, fnBind{pat: x.name, e: c.mapOp(x.typ, "clear") + " " + x.name, isLet: true, effect: true})
+			return wrap(pre, k())
+		}
 		if id, ok := call.Fun.(*ast.Ident); ok && id.Name == "delete" && id.Obj == nil && len(call.Args) == 2 {
 			x := c.plainVar(call.Args[0])
 			if x == nil || x.typ.k != "map" {
 				c.lostAt(v, "delete from %s (must be a map variable or field)", src(call.Args[0]))
 			}
 			key, _ := c.expr(call.Args[1], &pre)
-			pre = append(pre, fnBind{pat: x.name, e: "go_map_del " + c.mapEqb(x.typ, v) + " " + x.name + " " + paren(key), isLet: true, effect: true})
+			pre = append(pre, fnBind{pat: x.name, e: c.mapOp(x.typ, "del") + " " + c.mapEqb(x.typ, v) + " " + x.name + " " + paren(key), isLet: true, effect: true})
 			return wrap(pre, k())
 		}
 		if cal := c.g.calleeOf(c.fn, call); cal != nil {
@@ -686,7 +790,7 @@ func (c *fnCtx) assign(v *ast.AssignStmt, k func() term) term {
 					pats = append(pats, "_")
 				}
 			}
-			pre = append(pre, fnBind{pat: tuple(pats), e: "go_map_get2 " + c.mapEqb(mt, v) + " " + paren(c.zeroOf(mt.elem, v)) + " " + paren(m) + " " + paren(key), isLet: true})
+			pre = append(pre, fnBind{pat: tuple(pats), e: c.mapOp(mt, "get2") + " " + c.mapEqb(mt, v) + " " + paren(c.zeroOf(mt.elem, v)) + " " + paren(m) + " " + paren(key), isLet: true})
 			return wrap(pre, k())
 		}
 	}
@@ -758,6 +862,9 @@ func (c *fnCtx) assign(v *ast.AssignStmt, k func() term) term {
 	var ts []*fnType
 	for _, r := range v.Rhs {
 		x, t := c.expr(r, &pre)
+		if t.k == "map" {
+			c.mapAssignCheck(v, r)
+		}
 		vals = append(vals, x)
 		ts = append(ts, t)
 	}
@@ -829,7 +936,17 @@ func (c *fnCtx) plainVar(e ast.Expr) *fnVar {
 	switch v := e.(type) {
 	case *ast.ParenExpr:
 		return c.plainVar(v.X)
+	case *ast.StarExpr:
+		if id, ok := v.X.(*ast.Ident); ok {
+			if x := c.lookup(id); x != nil && x.ptr {
+				return x
+			}
+		}
+		return nil
 	case *ast.Ident:
+		if x := c.lookup(v); x != nil && x.ptr {
+			return nil // the pointer itself
+		}
 		return c.lookup(v)
 	case *ast.SelectorExpr:
 		if c.isRecv(v.X) {
@@ -884,7 +1001,12 @@ func (c *fnCtx) assign1(st *ast.AssignStmt, l, r ast.Expr, k func() term) term {
 			key, _ := c.expr(ix.Index, &pre)
 			e, et := c.expr(r, &pre)
 			c.noAlias(r, et)
-			pre = append(pre, fnBind{pat: x.name, e: "go_map_set " + c.mapEqb(x.typ, st) + " " + x.name + " " + paren(key) + " " + paren(e), isLet: true, effect: true})
+			if x.typ.nilable {
+				// a store into a nil map panics
+				pre = append(pre, fnBind{pat: x.name, m: tRaw{"go_nmap_set " + c.mapEqb(x.typ, st) + " " + x.name + " " + paren(key) + " " + paren(e)}, effect: true})
+			} else {
+				pre = append(pre, fnBind{pat: x.name, e: "go_map_set " + c.mapEqb(x.typ, st) + " " + x.name + " " + paren(key) + " " + paren(e), isLet: true, effect: true})
+			}
 			return wrap(pre, k())
 		}
 	}
@@ -996,14 +1118,14 @@ func (c *fnCtx) assign1(st *ast.AssignStmt, l, r ast.Expr, k func() term) term {
 				pre = append(pre, fnBind{pat: lv.name, e: lv.name + " ++ [" + strings.Join(xs, "; ") + "]", isLet: true})
 				return wrap(pre, k())
 			case "make":
-				if mt, isMap := call.Args[0].(*ast.MapType); isMap {
-					// make(map[K]V): the empty map
-					if len(call.Args) != 1 {
-						c.lostAt(st, "make of a map with a size hint")
-					}
-					t := c.goType(mt)
+				if t := c.makeMapType(call, &pre); t != nil {
+					// make(map[K]V[, hint]): the empty map
 					if x := c.target(l, st, t); x != nil {
-						pre = append(pre, fnBind{pat: x.name + " : " + t.coq(), e: "[]", isLet: true})
+						val := "go_nmap_make"
+						if !x.typ.nilable {
+							val = "[]"
+						}
+						pre = append(pre, fnBind{pat: x.name + " : " + x.typ.coq(), e: val, isLet: true})
 					}
 					return wrap(pre, k())
 				}
@@ -1070,8 +1192,11 @@ func (c *fnCtx) assign1(st *ast.AssignStmt, l, r ast.Expr, k func() term) term {
 			c.lostAt(st, "assignment of a slice value %s (aliasing)", src(r))
 		}
 	}
-	if t.k == "map" || t.k == "obj" {
+	if t.k == "obj" {
 		c.lostAt(st, "assignment of a %s value %s (aliasing)", t.k, src(r))
+	}
+	if t.k == "map" {
+		c.mapAssignCheck(st, r)
 	}
 	x := c.target(l, st, t)
 	if x == nil {
@@ -1120,15 +1245,18 @@ func (c *fnCtx) isTmp(s string) bool {
 // ---------------------------------------------------------------- loops
 
 type loopSpec struct {
-	node    ast.Node
-	body    *ast.BlockStmt
-	cond    func(pre *[]fnBind) string // nil: true
-	bodyPre func() []fnBind            // bound at the start of every iteration
-	post    func(k func() term) term   // the post statement, then k
-	eff     []ast.Node                 // cond / post nodes for the effect analysis
-	extraW  []*fnVar                   // written by the loop itself (range counter)
-	extraR  []*fnVar
-	iterLoc []*fnVar // set per iteration by the loop itself: never loop state
+	skip      string   // a condition under which the iteration is skipped (after bodyPre)
+	afterSkip []fnBind // bound after the skip test
+	ranged    *fnVar   // the map ranged over
+	node      ast.Node
+	body      *ast.BlockStmt
+	cond      func(pre *[]fnBind) string // nil: true
+	bodyPre   func() []fnBind            // bound at the start of every iteration
+	post      func(k func() term) term   // the post statement, then k
+	eff       []ast.Node                 // cond / post nodes for the effect analysis
+	extraW    []*fnVar                   // written by the loop itself (range counter)
+	extraR    []*fnVar
+	iterLoc   []*fnVar // set per iteration by the loop itself: never loop state
 }
 
 func (c *fnCtx) forStmt(v *ast.ForStmt, k func() term) term {
@@ -1156,6 +1284,9 @@ func (c *fnCtx) forStmt(v *ast.ForStmt, k func() term) term {
 func (c *fnCtx) rangeStmt(v *ast.RangeStmt, k func() term) term {
 	if v.Tok == token.ASSIGN {
 		c.lostAt(v, "range assigning to existing variables")
+	}
+	if xv := c.plainVar(v.X); xv != nil && xv.typ.k == "map" {
+		return c.rangeMap(v, xv.typ, k)
 	}
 	var pre []fnBind
 	ls := &loopSpec{node: v, body: v.Body}
@@ -1301,7 +1432,7 @@ func (c *fnCtx) loop(ls *loopSpec, k func() term) term {
 	for _, x := range state {
 		rec += " " + x.name
 	}
-	lc := &loopCtx{hasRet: hasRet}
+	lc := &loopCtx{hasRet: hasRet, ranged: ls.ranged}
 	lc.brk = func() term { return tOk{exit} }
 	lc.cont = func() term {
 		if ls.post != nil {
@@ -1314,7 +1445,12 @@ func (c *fnCtx) loop(ls *loopSpec, k func() term) term {
 	if ls.bodyPre != nil {
 		bodyPre = ls.bodyPre()
 	}
-	bodyT := wrap(bodyPre, c.stmts(ls.body.List, lc.cont))
+	var bodyT term
+	if ls.skip != "" {
+		bodyT = wrap(bodyPre, tIf{ls.skip, lc.cont(), wrap(ls.afterSkip, c.stmts(ls.body.List, lc.cont))})
+	} else {
+		bodyT = wrap(bodyPre, c.stmts(ls.body.List, lc.cont))
+	}
 	var fixBody term
 	if ls.cond != nil {
 		var cpre []fnBind
